@@ -349,7 +349,15 @@ class Names:
                 # the same role taking a parameter by reference instead of by value (or the reverse): references are
                 # transparent in the value graph, positions and types are what the rules rely on
                 def unref(ts):
-                    return [re.sub(r"^&(mut )?", "", t) for t in ts]
+                    # `impl Into<String>` / `impl AsRef<str>` parameters accept (at least) the plain type they convert to
+                    out_ = []
+                    for t in ts:
+                        t = re.sub(r"^&(mut )?", "", t)
+                        m_ = re.match(r"^impl (?:std::convert::|core::convert::)?(?:Into|AsRef)<(.+)>$", t)
+                        if m_:
+                            t = {"String": "std::string::String", "str": "std::string::String", "&str": "std::string::String"}.get(m_.group(1), m_.group(1))
+                        out_.append(t)
+                    return out_
                 hs = [f for f, ps, r in self._sig_index() if unref(ps) == unref(params) and r == ret and (among is None or f.path in among)]
                 if not hs and len(set(unref(params))) == len(params) and len(params) >= 2:
                     # the same role with its (pairwise differently typed) parameters in another order: calls of it are read in the
@@ -497,7 +505,20 @@ class Names:
     # factory helpers
     @property
     def pair_key(self):
-        return self.by_sig("registry key function", ["&[%s; 2]" % self.AssetInfoRaw], "std::vec::Vec<u8>")
+        try:
+            return self.by_sig("registry key function", ["&[%s; 2]" % self.AssetInfoRaw], "std::vec::Vec<u8>")
+        except AnchorMissing as e0:
+            # several functions map an asset pair to bytes (the key, and e.g. `key_after` = key ++ [1] for the cursor): the
+            # key function is the one the others are built from — the only candidate that calls none of the others
+            def go():
+                hs = [f for f, ps, r in self._sig_index() if [re.sub(r"^&(mut )?", "", t) for t in ps] == ["[%s; 2]" % self.AssetInfoRaw] and r == "std::vec::Vec<u8>"]
+                paths = {f.path for f in hs}
+                base = [f for f in hs if not (self.callees(f) & (paths - {f.path}))]
+                callers_ok = all(f in base or (self.callees(f) & {b_.path for b_ in base}) for f in hs)
+                if len(base) == 1 and callers_ok:
+                    return base[0]
+                raise e0
+            return self._once(("pair_key_base",), go)
 
     def role_items(self):
         """Root strings of the storage items the properties speak about (a new item nobody of these is, e.g. a statistics
